@@ -16,7 +16,7 @@ import (
 
 func init() { Registry["C06"] = runC06 }
 
-const explanationC06 = "Decides structural necessary conditions of C06: (R06.1) OR-of-ANDs gate — for every requirement shape (1–3 alternative requirements × 1–2 schemes) and every outcome vector of the authorization callbacks, the expanded endpoint template (parsed as Go and interpreted only over the predicate err==nil) calls exactly the callbacks the short-circuit semantics prescribes, runs the service method iff some requirement had all its callbacks succeed, and otherwise returns the callback error without running it; no callback is emitted for methods without requirements; (R06.2) every callback receives the scheme literal declared in its own block (name, scheme scopes, the requirement's scopes) and the credential field(s) of that scheme; (R06.3) effective requirements — NoSecurity clears them, method requirements win, then the service's, then the API's (edge-dominance facts on MethodExpr.Finalize), and the requirement copies do not alias; (R06.4) the server decoder strips the scheme prefix of Authorization-header credentials under a guard that makes the index safe and fills both basic-auth fields from r.BasicAuth(); the location inference maps params→query, headers→header, explicit body attribute→body and everything else to the implicit Authorization header; (R06.5) the four scheme scope validators are identical modulo the receiver type; scheme lists built per requirement are not shared between requirements (no slice reuse across iterations); (R06.6) scheme-specific code looks API keys up under the scheme-qualified tag; (R06.7) validator and finalizer inherit requirements in the same order. NOT decided: behaviour of arbitrary scheme combinations at run time beyond the shapes expanded, and that credential strings arrive unmodified (value property of generated decoders)."
+const explanationC06 = "Decides structural necessary conditions of C06: (R06.1) OR-of-ANDs gate — for every requirement shape (1–3 alternative requirements × 1–2 schemes) and every outcome vector of the authorization callbacks, the expanded endpoint template (parsed as Go and interpreted only over the predicate err==nil) calls exactly the callbacks the short-circuit semantics prescribes, runs the service method iff some requirement had all its callbacks succeed, and otherwise returns the callback error without running it; no callback is emitted for methods without requirements; (R06.2) every callback receives the scheme literal declared in its own block (name, scheme scopes, the requirement's scopes) and the credential field(s) of that scheme; (R06.3) effective requirements — NoSecurity clears them, method requirements win, then the service's, then the API's (edge-dominance facts on MethodExpr.Finalize), and the requirement copies do not alias; (R06.4) the server decoder strips the scheme prefix of Authorization-header credentials under a guard that makes the index safe and fills both basic-auth fields from r.BasicAuth(); the location inference maps params→query, headers→header, explicit body attribute→body and everything else to the implicit Authorization header; (R06.5) the four scheme scope validators are identical modulo the receiver type; scheme lists built per requirement are not shared between requirements (no slice reuse across iterations); (R06.6) scheme-specific code looks API keys up under the scheme-qualified tag; (R06.7) validator and finalizer inherit requirements in the same order. (R06.8) a credential's element name and its location (SchemeExpr.Name/In) are stored together on every path. NOT decided: behaviour of arbitrary scheme combinations at run time beyond the shapes expanded, and that credential strings arrive unmodified (value property of generated decoders)."
 
 func runC06(c *an.Ctx) string {
 	r061Gate(c)
@@ -25,6 +25,7 @@ func runC06(c *an.Ctx) string {
 	r065Siblings(c)
 	r06SchemeKeyed(c, "R06.6")
 	r067InheritanceAgreement(c, "R06.7")
+	pairedStoresRule(c, "R06.8", "scheme") // a credential's element name and its location are set together
 	return explanationC06
 }
 
@@ -391,11 +392,15 @@ func r063Inheritance(c *an.Ctx) {
 				if k := collOf(fct.Cond); k != "" {
 					facts[k] = fct.Holds
 					// the same fact in one canonical form: "<collection> empty"
-					switch {
-					case strings.HasSuffix(k, " > 0"), strings.HasSuffix(k, " != 0"):
-						facts[k[:strings.LastIndex(k, " ")-2]+" empty"] = !fct.Holds
-					case strings.HasSuffix(k, " == 0"), strings.HasSuffix(k, " < 1"):
-						facts[k[:strings.LastIndex(k, " ")-3]+" empty"] = fct.Holds
+					for _, suf := range []string{" > 0", " != 0", " >= 1"} {
+						if strings.HasSuffix(k, suf) {
+							facts[strings.TrimSuffix(k, suf)+" empty"] = !fct.Holds
+						}
+					}
+					for _, suf := range []string{" == 0", " < 1", " <= 0"} {
+						if strings.HasSuffix(k, suf) {
+							facts[strings.TrimSuffix(k, suf)+" empty"] = fct.Holds
+						}
 					}
 				} else {
 					facts[types.ExprString(fct.Cond)] = fct.Holds
